@@ -29,6 +29,7 @@ struct Ctx {
   bool dirtyStrings = false; // targets may hold non-empty strings (component "string(reused target)" only)
   bool nulStrings   = false; // strings may contain '\0' (component "string(embedded NUL)" only)
   bool allowEmptyPod = false; // PODResizeableArray / DynamicBitSet may be empty (own components only)
+  size_t* pool       = nullptr; // elements still available to the value being generated (bounds nested containers)
   Ctx child() const {
     Ctx c    = *this;
     c.budget = std::max(3u, budget / 6);
@@ -48,6 +49,10 @@ struct Ctx {
       n = rng.below(std::min(budget, 17u) + 1);
     else
       n = rng.below(budget + 1);
+    if (pool) {
+      n = std::min(n, *pool);
+      *pool -= n;
+    }
     if (!allowZero && n == 0)
       n = 1 + rng.below(3);
     return n;
